@@ -887,24 +887,43 @@ func deployUpdateEveryPassRule(c *Ctx) {
 			// the write sits in a closure (retry.RetryOnConflict): an early success return of the enclosing
 			// function in front of the retry call skips it just the same
 			if par := fn.Parent(); par != nil {
-				var user ssa.Instruction
+				// all closures of the enclosing function that hold such an update (tail duplication of a
+				// multi-return helper in front of the retry leaves one copy per helper return): a success
+				// return is early only if none of their calls can precede it
+				updating := map[ssa.Value]bool{ssa.Value(fn): true}
+				for _, sib := range fns {
+					if sib.Parent() == par {
+						for _, sws := range allWriterSites([]*ssa.Function{sib}) {
+							if sws.Verb == "Update" {
+								updating[ssa.Value(sib)] = true
+							}
+						}
+					}
+				}
+				var users []ssa.Instruction
 				for _, b := range par.Blocks {
 					for _, in := range b.Instrs {
-						if mc, ok := in.(*ssa.MakeClosure); ok && mc.Fn == ssa.Value(fn) {
+						if mc, ok := in.(*ssa.MakeClosure); ok && updating[mc.Fn] {
 							for _, r := range referrersOf(mc) {
 								if ci, isCall := r.(ssa.CallInstruction); isCall {
-									user = ci
+									users = append(users, ci)
 								}
 							}
 						}
 					}
 				}
-				if user != nil {
+				if len(users) > 0 {
 					for _, rc := range p.returnCases(par) {
 						if len(rc.Results) == 0 || !isNilConst(stripConv(rc.Results[len(rc.Results)-1])) {
 							continue
 						}
-						if canPrecede(user, rc.Ret) {
+						preceded := false
+						for _, user := range users {
+							if canPrecede(user, rc.Ret) {
+								preceded = true
+							}
+						}
+						if preceded {
 							continue
 						}
 						for _, f := range rc.Facts {
